@@ -375,6 +375,57 @@ func graphUnits() []Unit {
 		f.P.Service = append(f.P.Service, svc)
 		out = append(out, Unit{ID: id, Label: "service with unary and streaming methods", Files: []*descriptorpb.FileDescriptorProto{f.P}, Expect: "ok"})
 	}
+	// comments of every flavour on every kind of declaration, deprecated options, custom json names
+	{
+		id := "g_annotated"
+		f := NewFile("c12/"+id+".proto", "c12."+id, GenRoot+"c12/"+id)
+		f.P.Options.Deprecated = proto.Bool(true)
+		en := f.Enum("Ann", "ANN_ZERO", 0, "ANN_OLD", 1)
+		f.P.EnumType[0].Options = &descriptorpb.EnumOptions{Deprecated: proto.Bool(true)}
+		f.P.EnumType[0].Value[1].Options = &descriptorpb.EnumValueOptions{Deprecated: proto.Bool(true)}
+		m := f.Msg("Doc")
+		m.P.Options = &descriptorpb.MessageOptions{Deprecated: proto.Bool(true)}
+		fa := m.Field("a", 1, S(String))
+		fa.Options = &descriptorpb.FieldOptions{Deprecated: proto.Bool(true)}
+		fa.JsonName = proto.String("customA")
+		fb := m.Field("b_c", 2, E(en))
+		fb.JsonName = proto.String("b-c!")
+		m.OneofField("choice", "x", 3, S(Int32))
+		m.OneofField("choice", "y", 4, S(Bytes))
+		m.Rep("r", 5, M(m.Full()))
+		m.Map("mm", 6, String, S(Int64))
+		n := m.Nested("Inner")
+		n.Field("z", 1, S(Bool))
+		svc := &descriptorpb.ServiceDescriptorProto{Name: proto.String("DocSvc"), Options: &descriptorpb.ServiceOptions{Deprecated: proto.Bool(true)}}
+		svc.Method = append(svc.Method, &descriptorpb.MethodDescriptorProto{Name: proto.String("Get"), InputType: proto.String(m.Full()), OutputType: proto.String(m.Full()), Options: &descriptorpb.MethodOptions{Deprecated: proto.Bool(true)}})
+		f.P.Service = append(f.P.Service, svc)
+		texts := []string{
+			" plain comment\n",
+			" closes a block */ and opens one /* and again */\n",
+			" line one\n line two\r\n line three with a tab\t and a backslash \\ and a quote \" and a backtick `\n",
+			"\n\n",
+			" // nested line comment\n//go:build ignore\n//go:generate rm -rf /\n",
+			" Deprecated: do not use.\n\n Deprecated: twice.\n",
+			" unicode \u00e9\u4e16\u754c \U0001F600 and a template {{.X}} and %s %d %%\n",
+			" package main\n func init() { panic(1) }\n",
+			"no leading space and no final newline",
+		}
+		paths := [][]int32{
+			{12}, {2}, {8}, // syntax, package, options
+			{4, 0}, {4, 0, 2, 0}, {4, 0, 2, 1}, {4, 0, 2, 2}, {4, 0, 2, 3}, {4, 0, 2, 4}, {4, 0, 2, 5}, {4, 0, 8, 0}, {4, 0, 3, 0}, {4, 0, 3, 0, 2, 0},
+			{5, 0}, {5, 0, 2, 0}, {5, 0, 2, 1}, {6, 0}, {6, 0, 2, 0},
+		}
+		sci := &descriptorpb.SourceCodeInfo{}
+		for i, pth := range paths {
+			loc := &descriptorpb.SourceCodeInfo_Location{Path: pth, Span: []int32{int32(i), 0, 1}}
+			loc.LeadingComments = proto.String(texts[i%len(texts)])
+			loc.TrailingComments = proto.String(texts[(i+3)%len(texts)])
+			loc.LeadingDetachedComments = []string{texts[(i+5)%len(texts)], texts[(i+1)%len(texts)]}
+			sci.Location = append(sci.Location, loc)
+		}
+		f.P.SourceCodeInfo = sci
+		out = append(out, Unit{ID: id, Label: "comments (block terminators, directives, CRLF, templates) on every kind of declaration; deprecated options everywhere; custom json names", Files: []*descriptorpb.FileDescriptorProto{f.P}, Expect: "ok"})
+	}
 	// a proto2 file next to a proto3 file: no output for the proto2 one
 	{
 		id := "g_proto2"
